@@ -35,6 +35,11 @@ void point();              // harness-inserted scheduling point (e.g. inside a u
 long choose(long n);       // recorded nondeterministic choice 0..n-1 (a scheduler decision)
 bool in_child();           // true inside an execution
 uint32_t block_of(const void* p); // allocation sequence number of the heap block containing p (0 = not heap)
+bool thread_done(int t);   // client thread t has exited completely (thread-local destructors included)
+// harness-level ordering of client threads (directed scenarios); a waiting thread is not runnable and takes no steps
+void sync_set(int i);      // set flag i (0..15)
+void sync_wait(int i);     // block until flag i is set
+void wait_exit(int t);     // block until client thread t has exited completely
 void track_thread();       // must be called first thing in body (done by the runtime wrapper)
 bool weak_mode();
 // step-level traces: values that point into [base, base + count*elem) are logged as firstid + index (b = -2)
